@@ -5,24 +5,46 @@ Import ListNotations.
 Open Scope string_scope.
 Definition one (n : string) := filter (fun fd => String.eqb (fn_name fd) n) eon_program.
 Eval vm_compute in (report eon_program (one "_dSIS_pair_based_")).
+Eval vm_compute in (dead_report eon_program (one "_dSIS_pair_based_")).
 Eval vm_compute in (report eon_program (one "fast_nonMarkov_SIS")).
-Eval vm_compute in (report eon_program (one "_dSIR_effective_degree_")).
+Eval vm_compute in (dead_report eon_program (one "fast_nonMarkov_SIS")).
+Eval vm_compute in (report eon_program (one "basic_discrete_SIS")).
+Eval vm_compute in (dead_report eon_program (one "basic_discrete_SIS")).
 Eval vm_compute in (report eon_program (one "SIR_heterogeneous_pairwise")).
+Eval vm_compute in (dead_report eon_program (one "SIR_heterogeneous_pairwise")).
 Eval vm_compute in (report eon_program (one "_dSIS_heterogeneous_pairwise_")).
+Eval vm_compute in (dead_report eon_program (one "_dSIS_heterogeneous_pairwise_")).
 Eval vm_compute in (report eon_program (one "SIR_individual_based")).
+Eval vm_compute in (dead_report eon_program (one "SIR_individual_based")).
 Eval vm_compute in (report eon_program (one "_dSIS_super_compact_pairwise_")).
+Eval vm_compute in (dead_report eon_program (one "_dSIS_super_compact_pairwise_")).
 Eval vm_compute in (report eon_program (one "SIS_super_compact_pairwise_from_graph")).
+Eval vm_compute in (dead_report eon_program (one "SIS_super_compact_pairwise_from_graph")).
 Eval vm_compute in (report eon_program (one "SIS_heterogeneous_meanfield")).
+Eval vm_compute in (dead_report eon_program (one "SIS_heterogeneous_meanfield")).
 Eval vm_compute in (report eon_program (one "SIS_individual_based")).
+Eval vm_compute in (dead_report eon_program (one "SIS_individual_based")).
 Eval vm_compute in (report eon_program (one "SIR_compact_effective_degree")).
+Eval vm_compute in (dead_report eon_program (one "SIR_compact_effective_degree")).
 Eval vm_compute in (report eon_program (one "EBCM")).
+Eval vm_compute in (dead_report eon_program (one "EBCM")).
 Eval vm_compute in (report eon_program (one "SIR_compact_pairwise_from_graph")).
+Eval vm_compute in (dead_report eon_program (one "SIR_compact_pairwise_from_graph")).
 Eval vm_compute in (report eon_program (one "_dSIR_heterogeneous_meanfield_")).
+Eval vm_compute in (dead_report eon_program (one "_dSIR_heterogeneous_meanfield_")).
 Eval vm_compute in (report eon_program (one "_get_rate_functions_")).
+Eval vm_compute in (dead_report eon_program (one "_get_rate_functions_")).
 Eval vm_compute in (report eon_program (one "_SIR_pair_based_initialize_node_data")).
+Eval vm_compute in (dead_report eon_program (one "_SIR_pair_based_initialize_node_data")).
 Eval vm_compute in (report eon_program (one "get_PGFDPrime")).
+Eval vm_compute in (dead_report eon_program (one "get_PGFDPrime")).
 Eval vm_compute in (report eon_program (one "SIS_heterogeneous_meanfield_from_graph")).
+Eval vm_compute in (dead_report eon_program (one "SIS_heterogeneous_meanfield_from_graph")).
 Eval vm_compute in (report eon_program (one "directed_percolate_network")).
+Eval vm_compute in (dead_report eon_program (one "directed_percolate_network")).
 Eval vm_compute in (report eon_program (one "EBCM_discrete_uniform_introduction")).
+Eval vm_compute in (dead_report eon_program (one "EBCM_discrete_uniform_introduction")).
 Eval vm_compute in (report eon_program (one "SIS_compact_effective_degree")).
+Eval vm_compute in (dead_report eon_program (one "SIS_compact_effective_degree")).
 Eval vm_compute in (report eon_program (one "_simple_test_transmission_")).
+Eval vm_compute in (dead_report eon_program (one "_simple_test_transmission_")).
